@@ -2378,6 +2378,11 @@ class Wallet(object):
         if ((not self.main_key or not self.main_key.is_private or self.main_key.depth != 0) and
                 self.witness_type != witness_type) and not self.multisig:
             raise WalletError("This wallet has no private key, cannot use multiple witness types")
+        if self.multisig and self.cosigner and witness_type != self.witness_type and \
+                [c for c in self.cosigner if c.scheme == 'bip32' and
+                 (not c.main_key or not c.main_key.is_private or c.main_key.depth != 0)]:
+            raise WalletError("This multisig wallet holds account public keys of cosigners, cannot use multiple "
+                              "witness types")
         key_path = self.key_path
         purpose = self.purpose
         encoding = self.encoding
